@@ -767,6 +767,10 @@ func templates(L int) []string {
 		"2[\"a\x00\"]", "2[\"\xff\"]", "\xff", "2\xff", "5\xff-[\"a\"]", "51-\xff", "2[\"a\", 1]", "2 [\"a\"]", "2\n[\"a\"]", `2["a",` + strings.Repeat("[", 11000) + `]`} {
 		add(s)
 	}
+	// (g) the first frames of the hand-written representatives of the process half
+	for _, rp := range append(extraReps(), clientReps()...) {
+		add(rp.Frames[0].Data)
+	}
 	return out
 }
 
